@@ -138,3 +138,133 @@ class EngineVerdictBounded:
 
     def post_core_verdict(script_sig, script_pub_key, witness, flags, result):
         return result is core.verify(script_sig, script_pub_key, witness, set(flags))
+
+
+# ---- signed spends: script-code construction and OP_CODESEPARATOR positions -----------------
+from spec import bip340_ref, sighash as sh, taproot_ref       # noqa: E402
+from spec.der import der_sig                                  # noqa: E402
+from spec.ec_ref import SECP256K1 as _C, sec_compressed      # noqa: E402
+from spec.ecdsa_ref import sign_raw                           # noqa: E402
+
+_SIGNED_FLAGS = ("P2SH", "DERSIG", "WITNESS", "TAPROOT", "NULLFAIL", "LOW_S", "STRICTENC")
+
+
+def _segments(rng, tapscript):
+    """(script bytes, opcode position of the last executed OP_CODESEPARATOR or None, byte offset
+    just after it) for a prefix that leaves the stack as it found it"""
+    out = b""
+    n_ops = 0
+    pos = None
+    off = 0
+    for _ in range(rng.randrange(0, 6)):
+        c = rng.random()
+        a = rng.randrange(-2, 40)
+        if c < 0.22:
+            seg, k = num(a) + num(a) + b"\x88", 3                # OP_EQUALVERIFY
+        elif c < 0.4:
+            seg, k = num(a) + num(a) + b"\x9d", 3                # OP_NUMEQUALVERIFY
+        elif c < 0.5:
+            seg, k = b"\x61", 1
+        elif c < 0.6:
+            seg, k = push(bytes(rng.randrange(2, 80))) + b"\x75", 2
+        elif c < 0.7:
+            seg, k = b"\x00\x63\xab\x68", 4                      # an unexecuted OP_CODESEPARATOR
+        elif c < 0.78:
+            seg, k = b"\x51\x63\xab\x68", 4                      # an executed one inside OP_IF
+            pos, off = n_ops + 2, len(out) + 3
+        else:
+            seg, k = b"\xab", 1
+            pos, off = n_ops, len(out) + 1
+        out += seg
+        n_ops += k
+    return out, pos, off
+
+
+def _gen_signed(rng):
+    form = rng.choice(["tapscript", "tapscript", "p2wsh", "bare"])
+    d = rng.randrange(1, _C.n)
+    P = _C.mul(d, _C.G)
+    prefix, pos, off = _segments(rng, form == "tapscript")
+    tail = rng.choice(["checksig", "checksigverify", "checksigadd"] if form == "tapscript" else ["checksig", "checksigverify"])
+    honest = rng.random() < 0.6
+    txv = dict(version=2, lock_time=rng.choice([0, 500000]), sequence=rng.choice([0xFFFFFFFF, 0xFFFFFFFE, 5]), amount=rng.randrange(1000, 10**8),
+               hash_type=rng.choice([1, 1, 2, 3, 0x81, 0x83]) if form != "tapscript" else rng.choice([0, 0, 1, 2, 3, 0x81, 0x82, 0x83]))
+    return dict(form=form, d=d, prefix=prefix, pos=pos, off=off, tail=tail, honest=honest, lie=rng.choice(["pos-1", "pos+1", "none", "start"]),
+                aux=bytes(rng.getrandbits(8) for _ in range(32)), **txv)
+
+
+def signed_spend_verdict(form, d, prefix, pos, off, tail, honest, lie, aux, version, lock_time, sequence, amount, hash_type):
+    """build the spend, sign it with the reference signer over the reference digest for the
+    script code / code-separator position the script really has (honest) or one it does not
+    have, and ask the engine; returns (engine verdict, expected verdict)"""
+    P = _C.mul(d, _C.G)
+    fl = ScriptFlag(0)
+    for name in _SIGNED_FLAGS:
+        fl |= getattr(ScriptFlag, name)
+    if form == "tapscript":
+        pk = P[0].to_bytes(32, "big")
+        body = {"checksig": push(pk) + b"\xac", "checksigverify": push(pk) + b"\xad\x51", "checksigadd": b"\x00" + push(pk) + b"\xba\x51\x9c"}[tail]
+    else:
+        pk = sec_compressed(P)
+        body = {"checksig": push(pk) + b"\xac", "checksigverify": push(pk) + b"\xad\xab\x51"}[tail]
+    script = prefix + body
+    if form == "tapscript":
+        internal = _C.mul(7, _C.G)[0].to_bytes(32, "big")
+        lh = taproot_ref.leaf_hash(0xC0, script)
+        parity, q = taproot_ref.tweak_pubkey(internal, lh)
+        spk = b"\x51\x20" + q
+    elif form == "p2wsh":
+        spk = b"\x00\x20" + hashlib.sha256(script).digest()
+    else:
+        spk = script
+    tx = Tx(version, lock_time, [TxIn(OutPoint(b"\x02" * 32, 1), b"", sequence, Witness([]), check_validity=False)],
+            [TxOut(900, b"\x51")], check_validity=False)
+    prevouts = [TxOut(amount, ScriptPubKey(spk, check_validity=False), check_validity=False)]
+    true_pos = 0xFFFFFFFF if pos is None else pos
+    if honest:
+        use_pos, use_off = true_pos, off
+    else:
+        use_pos = {"pos-1": (true_pos - 1) % 2**32, "pos+1": (true_pos + 1) % 2**32, "none": 0xFFFFFFFF, "start": 0}[lie]
+        use_off = 0 if lie in ("none", "start") else max(0, off - 1)
+        if form == "tapscript":
+            honest = use_pos == true_pos
+        elif form == "p2wsh":
+            honest = use_off == off
+        else:       # the legacy digest drops every OP_CODESEPARATOR of the script code
+            honest = sh.find_and_delete_codeseparators(script[use_off:]) == sh.find_and_delete_codeseparators(script[off:])
+    if form == "tapscript":
+        ext = lh + b"\x00" + use_pos.to_bytes(4, "little")
+        msg = sh.bip341(tx, 0, prevouts, hash_type, 1, b"", ext)
+        sig = bip340_ref.sign(msg, d, aux) + (bytes([hash_type]) if hash_type else b"")
+        tx.vin[0].script_witness = Witness([sig, script, bytes([0xC0 | parity]) + internal])
+    else:
+        code = script[use_off:]
+        if form == "p2wsh":
+            digest = sh.bip143(code, tx, 0, hash_type, amount)
+        else:
+            digest = sh.legacy(code, tx, 0, hash_type)
+        c = int.from_bytes(digest, "big")
+        k = int.from_bytes(hashlib.sha256(aux + digest).digest(), "big") % _C.n or 1
+        r, s, _ = sign_raw(_C, c, d, k)
+        s = min(s, _C.n - s)
+        sig = der_sig(r, s) + bytes([hash_type])
+        if form == "p2wsh":
+            tx.vin[0].script_witness = Witness([sig, script])
+        else:
+            tx.vin[0].script_sig = push(sig)
+    try:
+        verify_input(prevouts, tx, 0, fl)
+        got = True
+    except BTClibValueError:
+        got = False
+    return got, honest
+
+
+@contract("contracts.c_engine.signed_spend_verdict", gen=_gen_signed, props="C08", n_quick=250, n_thorough=6000,
+          rule="single-key CHECKSIG / CHECKSIGVERIFY / CHECKSIGADD spends (tapscript leaf, P2WSH, bare) whose script has 0..5 prefix segments with executed, unexecuted and OP_IF-nested OP_CODESEPARATORs and contracted *VERIFY opcodes; signature by the reference signer over the reference BIP341/BIP143/legacy digest of either the real script code / code-separator position or a wrong one; all sighash types")
+class SignedSpendBounded:
+    """accepted exactly when the signature commits to the script code (legacy, BIP143: the script
+    after the last executed OP_CODESEPARATOR) / opcode position (BIP342) the script really has"""
+
+    def post_accepts_iff_honest(result):
+        return result[0] is result[1]
